@@ -4,6 +4,7 @@ import json
 import os
 import shutil
 import subprocess
+import time
 import random
 
 import cfg
@@ -1348,6 +1349,7 @@ def run_front(cases, timeout=900):
             return False, b""
     out = b""
     B = 200
+    died = [0]
     for k in range(0, len(cases), B):
         batch = cases[k:k + B]
         good, txt = run_batch(batch, 30 + len(batch))
@@ -1356,10 +1358,14 @@ def run_front(cases, timeout=900):
             continue
         # the process died or hung: run its cases one by one; a case that kills it alone is recorded as a hang
         for c in batch:
-            good, txt = run_batch([c], 20)
+            if died[0] >= 8:
+                out += ("FCASE %s\nSKIPPED\nFEND\n" % c["id"]).encode()
+                continue
+            good, txt = run_batch([c], 15)
             if good:
                 out += txt
             else:
+                died[0] += 1
                 out += ("FCASE %s\nPROCESSDIED\nBUILDHANG\nFEND\n" % c["id"]).encode()
     m = common.sh([common.YMODEL], inp=out, timeout=timeout)
     p = type("P", (), {"stdout": out})
@@ -1543,3 +1549,353 @@ def check_C10(tier):
 C10_THEOREMS = ["YLex.lexAll_total"]
 C10_MODULES = ["Yv.Proofs.YLexTotal"]
 C10_LEVEL = "proof"
+
+
+# ------------------------------------------------------------------------------------------- C11
+
+def c11_spec(rng):
+    """token declaration mixes"""
+    nt = rng.randint(1, 6)
+    tokens = ["T%d" % i for i in range(nt)]
+    lits = ["'%s'" % c for c in rng.sample(list("+-*/()=<>!&^~,.#@AZaz059"), rng.randint(0, 4))]
+    nums = {}
+    used = set(ord(l[1]) for l in lits)
+    for t in tokens:
+        if rng.random() < 0.5:
+            n = rng.choice([3, 4, 5, 6, 7, 2, 43, 44, 45, 65, 66, 97, 256, 257, 258, 300, 1000])
+            if n not in used:
+                used.add(n)
+                nums[t] = n
+    only_prec = [t for t in tokens if rng.random() < 0.25]       # declared only through a precedence line
+    prec = []
+    pool = list(only_prec) + [l for l in lits if rng.random() < 0.5] + [t for t in tokens if t not in only_prec and rng.random() < 0.3]
+    rng.shuffle(pool)
+    while pool:
+        k = rng.randint(1, min(2, len(pool)))
+        prec.append((rng.choice(["left", "right", "nonassoc"]), pool[:k]))
+        pool = pool[k:]
+    terms = tokens + lits
+    rules = [{"lhs": "S", "rhs": [rng.choice(terms) for _ in range(rng.randint(0, 3))], "prec": None} for _ in range(rng.randint(1, 3))]
+    rules += [{"lhs": "S", "rhs": [t], "prec": None} for t in terms if rng.random() < 0.5]
+    sp = {"tokens": [t for t in tokens if t not in only_prec], "lits": lits, "prec": prec, "nts": ["S"], "start": "S",
+          "rules": rules, "nums": {t: n for t, n in nums.items() if t not in only_prec}}
+    tags = {t: "val" for t in sp["tokens"] if rng.random() < 0.4}
+    sp["all_named"] = tokens
+    sp["tagsel"] = tags
+    return sp
+
+
+def check_C11(tier):
+    pid = "C11"
+    rng = random.Random(common.seed() * 1000003 + 11)
+    ok, msg = prebuild()
+    if not ok:
+        return build_failure(pid, tier, msg)
+    proof = common.prove(C11_THEOREMS, C11_MODULES)
+    n = 150 if tier == "quick" else 2000
+    specs = [c11_spec(rng) for _ in range(n)]
+    work = common.tmpdir("c11")
+    cases, jobs = [], []
+    for i, sp in enumerate(specs):
+        src = gen.render(sp, prologue="package p\nimport \"fmt\"", union=" val int", tags=sp["tagsel"],
+                         epilogue="\nfunc GetToken(input string, valTy *ValType, pos *int) int { return -1 }\n")
+        cases.append({"id": "d%d" % i, "src": src})
+        for target in ("go", "typescript"):
+            jobs.append({"id": "d%d|%s" % (i, target), "src": src, "out": os.path.join(work, "d%d.%s" % (i, "go" if target == "go" else "ts")),
+                         "target": target, "unpack": False, "object": False})
+    rec = run_front(cases)
+    p = common.sh([common.BIN + "/yharness", "xgen"], inp="".join(json.dumps(j) + "\n" for j in jobs).encode())
+    genok = {}
+    for line in p.stdout.decode(errors="replace").split("\n"):
+        f = line.split()
+        if len(f) >= 3 and f[0] == "XGEN":
+            genok[f[1]] = f[2] == "ok"
+    ties, violations, samples = [], [], []
+    accepted = 0
+    for i, (c, sp) in enumerate(zip(cases, specs)):
+        ties += front_stage_ties(c["id"], rec[c["id"]], c["src"], stages=("GRAMMAR", "SYM", "REFUSE"))
+        d = digest_front(rec[c["id"]]["impl"])
+        if d["refuse"] or d["ast_err"] or d["hang"]:
+            continue
+        accepted += 1
+        terms = {v["name"]: v for v in d["syms"].values() if not v["nt"]}
+        ids = {v["name"]: k for k, v in d["syms"].items()}
+        why = None
+        for l in sp["lits"]:
+            v = terms.get(sym_name(l))
+            if v is not None and v["value"] != ord(l[1]):
+                why = "literal %s numbered %d instead of its character code" % (l, v["value"])
+        for t, nnum in sp["nums"].items():
+            if terms.get(t, {}).get("value") != nnum:
+                why = "token %s declared with number %d is numbered %s" % (t, nnum, terms.get(t, {}).get("value"))
+        codes = [v["value"] for nm, v in terms.items()]
+        if len(set(codes)) != len(codes):
+            why = "two terminals share a code: %s" % sorted((v["value"], nm) for nm, v in terms.items())
+        if any(v["value"] == -1 for nm, v in terms.items() if nm != "$"):
+            why = "a token is numbered -1 (the end marker)"
+        for t in sp["all_named"]:
+            if t not in terms and any(t in r["rhs"] for r in sp["rules"]):
+                why = "token %s is not a terminal of the grammar" % t
+        # the generated interface: const block and translate switch, both targets
+        for target in ("go", "typescript"):
+            if not genok.get("d%d|%s" % (i, target)):
+                ties.append({"what": "generation failed although the front end accepts", "case": c["id"], "target": target})
+                continue
+            sc = xrun.scrape(os.path.join(work, "d%d.%s" % (i, "go" if target == "go" else "ts")), target)
+            want_consts = {nm: v["value"] for nm, v in terms.items() if nm != "$" and not nm.startswith("$operator")}
+            if sc["consts"] != want_consts:
+                why = "%s: constants %s differ from the token codes %s" % (target, sc["consts"], want_consts)
+            want_tr = {v["value"]: ids[nm] for nm, v in terms.items()}
+            if sc["translate"] != want_tr:
+                why = "%s: translate switch %s differs from code->symbol %s" % (target, sc["translate"], want_tr)
+        if why:
+            violations.append({"key": common.finding_key({"src": c["src"]}), "what": "token codes / lexer interface: " + why,
+                               "replay": {"property": pid, "grammar_file": c["src"], "why": why}})
+        if len(samples) < 2:
+            samples.append({"grammar_file": c["src"][:400], "codes": {nm: v["value"] for nm, v in terms.items()}})
+    cov = {"evaluations": len(cases) * 3, "distinct_nontrivial": accepted,
+           "rule": "random declaration mixes: explicit numbers near literal codes and near the automatic range, character literals, tagged/untagged tokens, tokens declared via %token or only via %left/%right/%nonassoc or (literals) only used in rules; front end in-process + generated Go and TypeScript files scraped for the const block and the translate switch; distinct = accepted mixes",
+           "samples": samples, "programs": accepted * 2, "disagreements_checked": len(ties) + len(violations), "trusted_base": TRUSTED}
+    return common.conclude(pid, tier, C11_LEVEL, proof, ties[:50], violations, cov,
+                           ["explicit numbers are positive, pairwise distinct and distinct from the character codes of the literals used"])
+
+
+C11_THEOREMS = []
+C11_MODULES = []
+C11_LEVEL = "translation_validation"
+
+
+# ------------------------------------------------------------------------------------------- C12
+
+def c12_spec(rng):
+    sp = gen.rand_grammar(rng, max_t=3, max_n=4, max_alt=3, max_len=3, p_prec=0.2, p_lit=0.2)
+    plant = rng.choice(["none", "none", "undefined", "norule_type", "unproductive_self", "unproductive_mutual", "unproductive_start",
+                        "unreachable_unproductive", "unproductive_deep"])
+    nts = sp["nts"]
+    terms = sp["tokens"] + sp["lits"]
+    t = rng.choice(terms)
+    if plant == "undefined":
+        r = rng.choice(sp["rules"])
+        r["rhs"].insert(rng.randint(0, len(r["rhs"])), "UNDEF")
+    elif plant == "norule_type":
+        sp["extra_type"] = "Ghost"
+    elif plant == "unproductive_self":
+        sp["nts"] = nts + ["U"]
+        sp["rules"].append({"lhs": "U", "rhs": [t, "U"], "prec": None})
+        rng.choice(sp["rules"][:-1])["rhs"].append("U")
+    elif plant == "unproductive_mutual":
+        sp["nts"] = nts + ["U", "W"]
+        sp["rules"].append({"lhs": "U", "rhs": ["W", t], "prec": None})
+        sp["rules"].append({"lhs": "W", "rhs": [t, "U"], "prec": None})
+        rng.choice(sp["rules"][:-2])["rhs"].append("U")
+    elif plant == "unproductive_start":
+        sp["rules"] = [r for r in sp["rules"] if r["lhs"] != "N0"] + [{"lhs": "N0", "rhs": ["N0", t], "prec": None}]
+    elif plant == "unreachable_unproductive":
+        sp["nts"] = nts + ["U"]
+        sp["rules"].append({"lhs": "U", "rhs": ["U"], "prec": None})
+    elif plant == "unproductive_deep":
+        sp["nts"] = nts + ["U", "W"]
+        sp["rules"].append({"lhs": "W", "rhs": [t, "U", t], "prec": None})
+        sp["rules"].append({"lhs": "U", "rhs": ["U", t], "prec": None})
+        sp["rules"].append({"lhs": "U", "rhs": [t, "W"], "prec": None})
+        rng.choice(sp["rules"][:-3])["rhs"].insert(0, "W")
+    sp["plant"] = plant
+    return sp
+
+
+def c12_expected(sp):
+    """the property's verdict, from the abstract spec"""
+    terms = set(sp["tokens"] + sp["lits"])
+    lhss = set(r["lhs"] for r in sp["rules"])
+    declared_nt = set([sp["start"]]) | ({sp["extra_type"]} if sp.get("extra_type") else set())
+    for r in sp["rules"]:
+        for s in r["rhs"]:
+            if s not in terms and s not in lhss and s not in declared_nt:
+                return "undefined"
+    for n in declared_nt:
+        if n not in lhss:
+            return "norule"
+    prod = set(terms)
+    ch = True
+    while ch:
+        ch = False
+        for r in sp["rules"]:
+            if r["lhs"] not in prod and all(s in prod for s in r["rhs"]):
+                prod.add(r["lhs"])
+                ch = True
+    if any(n not in prod for n in lhss):
+        return "unproductive"
+    return None
+
+
+def check_C12(tier):
+    pid = "C12"
+    rng = random.Random(common.seed() * 1000003 + 12)
+    ok, msg = prebuild()
+    if not ok:
+        return build_failure(pid, tier, msg)
+    proof = common.prove(C12_THEOREMS, C12_MODULES)
+    n = 500 if tier == "quick" else 8000
+    specs = [c12_spec(rng) for _ in range(n)]
+    tiny = list(gen.enum_tiny(max_rules=3, max_len=2))
+    if tier == "quick":
+        tiny = rng.sample(tiny, 400)
+    for sp in tiny:
+        sp = dict(sp)
+        sp["plant"] = "tiny"
+        specs.append(sp)
+    cases = []
+    for i, sp in enumerate(specs):
+        src = gen.render(sp)
+        if sp.get("extra_type"):
+            src = src.replace("%start", "%%type <v> %s\n%%start" % sp["extra_type"], 1)
+        cases.append({"id": "g%d" % i, "src": src})
+    rec = run_front(cases)
+    ties, violations, samples = [], [], []
+    hist = {}
+    for c, sp in zip(cases, specs):
+        ties += front_stage_ties(c["id"], rec[c["id"]], c["src"], stages=("GRAMMAR", "REFUSE"))
+        d = digest_front(rec[c["id"]]["impl"])
+        exp = c12_expected(sp)
+        got = d["refuse"] if d["refuse"] else ("hang" if d["hang"] else ("syntax" if d["ast_err"] else None))
+        hist[(sp["plant"], str(exp), str(got))] = hist.get((sp["plant"], str(exp), str(got)), 0) + 1
+        okv = (got == exp) or (exp is None and got == "toomany")
+        if not okv:
+            what = ("usable grammar refused (%s)" % got) if exp is None else (
+                "unusable grammar (%s) is %s" % (exp, "processed" if got is None else "refused for another reason: %s" % got))
+            violations.append({"key": common.finding_key({"src": c["src"]}), "what": what,
+                               "replay": {"property": pid, "grammar_file": c["src"], "expected": exp, "got": got}})
+        if len(samples) < 3 and exp is not None:
+            samples.append({"grammar_file": c["src"][:300], "verdict": got})
+    cov = {"evaluations": len(cases), "distinct_nontrivial": len(set(c["src"] for c in cases)),
+           "rule": "random grammars with a planted defect (undefined symbol; nonterminal declared by %type without rule; unproductive nonterminal: self-recursive, mutually recursive, at the start symbol, deep, unreachable) or none, plus sampled exhaustive tiny grammars; the verdict (processed / refused with reason class) is compared with the property's rule computed from the abstract specification, and with the Lean front-end model",
+           "samples": samples, "verdict_histogram": {"%s expected=%s got=%s" % k: v for k, v in sorted(hist.items())},
+           "programs": len(cases), "disagreements_checked": len(ties) + len(violations), "trusted_base": TRUSTED}
+    return common.conclude(pid, tier, C12_LEVEL, proof, ties[:50], violations, cov, ["explicit %start; below the 2000-state cap"])
+
+
+C12_THEOREMS = []
+C12_MODULES = []
+C12_LEVEL = "translation_validation"
+
+
+# ------------------------------------------------------------------------------------------- C13
+
+from concurrent.futures import ThreadPoolExecutor  # noqa: E402
+import glob  # noqa: E402
+
+
+def c13_texts(tier, rng):
+    base = []
+    for f in sorted(glob.glob(os.path.join(common.REPO, "examples", "*.y"))):
+        try:
+            base.append(open(f, encoding="utf-8").read())
+        except Exception:
+            pass
+    for _ in range(6 if tier == "quick" else 40):
+        base.append(gen.render_file(gen.file_spec(rng), rng))
+    texts = ["", "%", "%%", "%token <@", "%token <#val> NUM", "%start* L", "%token A\n%start", "%union", "%union {", "%{", "/*", "'", "\"", "{", "%token A\n%%\nS : A {",
+             "%token A\n%%\nS : A /* x", "%prec", "%type", "%type <", "%left", "%token A 1 2 3 <", "$", "$$", "$end", "%token A\n%%\nS : %prec", "%token A\n%%\nS :", "%token A\n%%\nS"]
+    step = 23 if tier == "quick" else 5
+    for b in base:
+        for k in range(0, len(b), step):
+            texts.append(b[:k])
+    junk = list("%{}'\"/*<>|:;$ \n\t") + ["%%", "%{", "%}", "/*", "*/", "//", "%token", "%union", "%start", "%type", "%left", "%prec", "$$", "{", "}"]
+    n_edit = 400 if tier == "quick" else 6000
+    for _ in range(n_edit):
+        b = rng.choice(base)
+        s = list(b)
+        for _ in range(rng.randint(1, 3)):
+            if not s:
+                break
+            i = rng.randrange(len(s))
+            op = rng.randrange(4)
+            if op == 0:
+                del s[i:i + rng.randint(1, 6)]
+            elif op == 1:
+                s[i:i] = list(rng.choice(junk))
+            elif op == 2:
+                s[i] = rng.choice(junk)
+            else:
+                s[i:i] = s[max(0, i - rng.randint(1, 8)):i]
+        texts.append("".join(s))
+    seen = set()
+    out = []
+    for t in texts:
+        if t not in seen:
+            seen.add(t)
+            out.append(t)
+    return out
+
+
+def check_C13(tier):
+    pid = "C13"
+    rng = random.Random(common.seed() * 1000003 + 13)
+    ok, msg = prebuild()
+    if not ok:
+        return build_failure(pid, tier, msg)
+    proof = common.prove(C13_THEOREMS, C13_MODULES)
+    texts = c13_texts(tier, rng)
+    work = common.tmpdir("c13")
+    cli = os.path.join(common.BIN, "yaccgo")
+    DEADLINE = 6
+
+    def one(job):
+        i, mode = job
+        inp = os.path.join(work, "t%d.y" % i)
+        cmd = [cli, "generate", "go", inp, os.path.join(work, "o%d_%s.out" % (i, mode))] if mode != "debug" else [cli, "debug", inp]
+        if mode == "ts":
+            cmd = [cli, "generate", "typescript", inp, os.path.join(work, "o%d_ts.out" % i)]
+        t0 = time.time()
+        try:
+            p = subprocess.run(cmd, stdout=subprocess.DEVNULL, stderr=subprocess.DEVNULL, timeout=DEADLINE, cwd=work)
+            return (i, mode, "exit%d" % p.returncode if p.returncode in (0, 2) else "rc%d" % p.returncode, time.time() - t0)
+        except subprocess.TimeoutExpired:
+            return (i, mode, "HANG", time.time() - t0)
+    for i, t in enumerate(texts):
+        open(os.path.join(work, "t%d.y" % i), "w", encoding="utf-8").write(t)
+    jobs = [(i, m) for i in range(len(texts)) for m in ("go", "debug")] + [(i, "ts") for i in range(0, len(texts), 7)]
+    with ThreadPoolExecutor(max_workers=16) as ex:
+        results = list(ex.map(one, jobs))
+    violations, ties, samples = [], [], []
+    hist = {}
+    slowest = 0.0
+    hangs = [r for r in results if r[2] == "HANG"]
+    # a hang is re-run once alone before it is reported
+    confirmed = []
+    for (i, mode, _, _) in hangs[:40]:
+        r2 = one((i, mode))
+        if r2[2] == "HANG":
+            confirmed.append((i, mode))
+        if len(confirmed) >= 3:
+            break
+    for (i, mode, outc, dt) in results:
+        hist[mode + ":" + outc] = hist.get(mode + ":" + outc, 0) + 1
+        slowest = max(slowest, dt)
+    for (i, mode) in confirmed:
+        violations.append({"key": common.finding_key({"text": texts[i], "mode": mode}),
+                           "what": "yaccgo %s does not finish on an input text" % ("debug" if mode == "debug" else "generate"),
+                           "replay": {"property": pid, "input_text": texts[i], "command": mode, "deadline_s": DEADLINE}})
+    # the front-end model on the same texts (ASCII ones): ok / diagnostic must agree
+    hung = set(i for (i, mode, outc, dt) in results if outc == "HANG")
+    ascii_cases = [{"id": "t%d" % i, "src": t} for i, t in enumerate(texts) if all(ord(ch) < 128 for ch in t) and i not in hung]
+    rec = run_front(ascii_cases)
+    for c in ascii_cases:
+        d = digest_front(rec[c["id"]]["impl"])
+        if d["hang"]:
+            violations.append({"key": common.finding_key({"text": c["src"], "mode": "in-process"}),
+                               "what": "front end does not finish on an input text (%s)" % d["hang"],
+                               "replay": {"property": pid, "input_text": c["src"], "command": "parser.ParseAndBuild in-process"}})
+        ties += front_stage_ties(c["id"], rec[c["id"]], c["src"], stages=("TOK", "AST", "GRAMMAR", "REFUSE"))
+    samples.append({"input_text": texts[30][:200] if len(texts) > 30 else "", "outcome": [r[2] for r in results if r[0] == 30]})
+    cov = {"evaluations": len(results), "distinct_nontrivial": len(texts),
+           "rule": "distinct input texts: hand-written truncations, every %d-th prefix of the repository's example grammars and of rendered random files, random edits (delete / insert / replace / duplicate with brace, quote, comment and directive fragments); each text through `yaccgo generate go`, `yaccgo debug` (and every 7th through `generate typescript`) as child processes with a %d s deadline, 16 at a time; a hang is re-run alone before it is reported; the ASCII texts also through the in-process front end against the Lean front-end model" % (23 if tier == "quick" else 5, DEADLINE),
+           "samples": samples, "outcome_histogram": hist, "slowest_s": round(slowest, 2), "model_compared_texts": len(ascii_cases),
+           "trusted_base": TRUSTED + ["wall-clock deadline three orders of magnitude above the normal run time"],
+           "partial": ["the kernel-checked part is the lexer model's totality (lexAll_total: fuel |src|+2 always suffices); the parser model runs on explicit fuel and is tied by correspondence"]}
+    return common.conclude(pid, tier, C13_LEVEL, proof, ties[:50], violations, cov, ["texts of a few kilobytes"])
+
+
+C13_THEOREMS = ["YLex.lexAll_total"]
+C13_MODULES = ["Yv.Proofs.YLexTotal"]
+C13_LEVEL = "proof"
